@@ -243,6 +243,68 @@ def check(plan, res):
     v += _liveness(plan, res)
     # ---- heart-beat locality
     v += _hb_locality(plan, res)
+    # ---- the failing object's heart beat IS switched off; timers keep running
+    v += _hb_failing_off(plan, res)
+    v += _timers_alive(plan, res)
+    return v
+
+
+def _hb_failing_off(plan, res):
+    """an object whose heart_beat raised an uncaught error must not beat again until somebody re-enables it"""
+    v = []
+    last_task = None
+    failed = {}      # tag -> cycle of failure
+    for e in res.events:
+        if e.kind == 'cycle': last_task = None
+        elif e.kind == 'R':
+            w = e.rest.split(' ')
+            h = w[0]
+            if h == 'HB':
+                if w[1] in failed and e.cycle > failed[w[1]]:
+                    v.append(Violation(PROP, 'hb-not-off', 'object %s raised an uncaught error in its heart_beat in cycle %d but its heart beat ran again in cycle %d' % (w[1], failed[w[1]], e.cycle),
+                                       PROP + '/hb/failing-object-not-switched-off'))
+                    return v
+                last_task = ('HB', w[1])
+            elif h == 'HBSET':
+                if len(w) > 3 and w[3] != 'q=0': failed.pop(w[1], None)
+            elif h == 'U' and len(w) > 2 and re.fullmatch(r'B\d+', w[2]):
+                # a bomb op executed: it ends in an uncaught error unless an LPC catch surrounds it (none in C09 plans)
+                if last_task and last_task[0] == 'HB' and last_task[1] == w[1]: failed.setdefault(w[1], e.cycle)
+            elif h in ('DO', 'CO', 'CMD', 'PI', 'PIB', 'INPUT', 'CHAR', 'LOGON', 'CONNECT', 'NETDEAD', 'RESET', 'CLEANUP', 'MOD', 'CREATE'):
+                last_task = (h, w[1] if len(w) > 1 else '')
+    return v
+
+
+def _timers_alive(plan, res):
+    """a call_out set by a healthy user must fire once enough error-free ticks have passed"""
+    v = []
+    evs = res.events
+    err_cycles = set()
+    for e in evs:
+        if (e.kind == 'R' and e.rest.startswith('ERR ')) or e.kind == 'fault_fired' or \
+           (e.kind == 'D' and ('rror' in e.rest or 'Too long' in e.rest or 'Too deep' in e.rest)):
+            err_cycles.add(e.cycle)
+    sets = {}; fired = set(); gone = set()
+    for e in evs:
+        if e.kind == 'R':
+            w = e.rest.split(' ')
+            if w[0] == 'COSET' and w[2] == 'kz':
+                kv = dict(t.split('=', 1) for t in w if '=' in t)
+                sets[w[1]] = (e.cycle, int(kv['t']) + max(int(kv['d']), 1))
+            elif w[0] == 'CO' and w[2] == 'kz': fired.add(w[1])
+            elif w[0] in ('QUIT', 'DEST') and len(w) > 1: gone.add(w[1])
+    for who, (cyc, due) in sets.items():
+        if who in fired or who in gone: continue
+        # an error-free tick at or after the due time?
+        for e in evs:
+            if e.kind == 'step' and re.match(r'&?step (tick|stall) ', e.rest) and e.cycle > cyc and e.cycle not in err_cycles:
+                t = 1000000000 + e.vus // 1000000
+                nxt = [x for x in evs if x.cycle == e.cycle and x.kind == 'eventfd_read']
+                if nxt: t = 1000000000 + nxt[0].vus // 1000000
+                if t >= due + 1:
+                    v.append(Violation(PROP, 'timers', 'call_out kz of %s (due t=%d) did not fire in the error-free tick of cycle %d (t=%d)' % (who, due, e.cycle, t),
+                                       PROP + '/liveness/call_out-never-fires'))
+                    break
     return v
 
 
